@@ -854,7 +854,7 @@ Section Final.
     Proof.
       destruct (ir_plain_fields s ir Hplain) as [Ha _].
       destruct (alloc_some alloc Ha) as (al & asegs & Ea).
-      intros H. unfold field_pty. destruct (fi_boxed f); [|exact H].
+      intros H. unfold field_pty. destruct (fi_emit_boxed f); [|exact H].
       fold alloc. rewrite Ea. apply mk_ppath_in; [apply app_tail_ne; discriminate|].
       cbn [flat_map]. rewrite app_nil_r. exact H.
     Qed.
@@ -868,7 +868,7 @@ Section Final.
       - apply forallb_forall. intros t Ht. apply in_map_iff in Ht as (f & <- & Hin).
         destruct (Hf f Hin) as [Htok _].
         pose proof (ir_pty_ok alloc Ha _ (Hfp f Hin) Htok) as Hok.
-        unfold field_pty. destruct (fi_boxed f); [|exact Hok].
+        unfold field_pty. destruct (fi_emit_boxed f); [|exact Hok].
         fold alloc. rewrite Ea. apply mk_ppath_ok; [apply app_tail_ne; discriminate|].
         cbn [forallb]. rewrite Hok. reflexivity.
       - unfold phantom_list. destruct (phantom_pty (ti_unused ir)) as [ph|] eqn:Eph; [|reflexivity].
@@ -893,7 +893,7 @@ Section Final.
         { intros H. destruct (paths_from_subterms alloc _ _ H) as (x & Hx & Hh).
           apply (node_resolves s m Hc al asegs Ea x); [|exact Hh].
           intros y Hy. apply Hnodes. eapply subpaths_trans; eauto. }
-        unfold field_pty in Hls. destruct (fi_boxed f); [|apply Hinner; exact Hls].
+        unfold field_pty in Hls. destruct (fi_emit_boxed f); [|apply Hinner; exact Hls].
         fold alloc in Hls. rewrite Ea in Hls. apply mk_ppath_paths in Hls as [H|H].
         + apply head_path_eq in H. eapply (alloc_head s m Hc al asegs Ea); [|exact H]. discriminate.
         + cbn [flat_map] in H. rewrite app_nil_r in H. apply Hinner. exact H.
